@@ -147,7 +147,7 @@ def build_harness(name, extra=(), sanitize=False, opt="-O2"):
 
 # --------------------------------------------------------------------------- S2
 def lake_build(targets, timeout=3000):
-    with Lock("lake"):
+    with Lock("lake"):  # same lock file as tools/lk
         rc, o, e = sh(["lake", "build", *targets], cwd=LEAN, timeout=timeout)
     return rc == 0, (o + e)
 
